@@ -96,6 +96,8 @@ var c12HTMLForms = []struct{ name, tmpl string }{
 	{"pragma-trailing-param", `<%M %H="Content-Type" %T="text/html; charset=L;x=y">`},
 	{"pragma-trailing-ws", `<%M %H="Content-Type" %T="text/html; charset=L ">`},
 	{"pragma-selfclose", `<%M %H="Content-Type" %T="text/html; charset=L" />`},
+	{"pragma-charset-word-before", `<%M %H="Content-Type" %T="text/html; x-charset-hint; charset=L">`},
+	{"pragma-charset-word-before2", `<%M %H="Content-Type" %T="charset; charset=L">`},
 	{"pragma-newlines", "<%M\n  %H=\"Content-Type\"\n  %T=\"text/html; charset=L\">"},
 }
 
